@@ -456,8 +456,10 @@ impl SynthFont {
         // ---- production names
         let ps_names = if p.ps_names && og.chance(1, 3) {
             let mut m = BTreeMap::new();
-            for gl in &glyphs { if gl.name != ".notdef" && og.chance(1, 3) {
-                let v = match og.below(5) { 0 => format!("uni{:04X}", 0xE100 + m.len()), 1 => "dup".to_string(), 2 => format!("{}.prod", gl.name.replace('.', "_")), 3 => "bad name!é".to_string(), _ => format!("g{}", m.len()) };
+            for gl in &glyphs { if gl.name != ".notdef" && og.chance(1, 2) {
+                // includes the coincidence shapes: several glyphs renamed to the same name, and names that
+                // look like the suffixes de-duplication generates
+                let v = match og.below(8) { 0 => format!("uni{:04X}", 0xE100 + m.len()), 1 | 2 => "dup".to_string(), 3 => format!("{}.prod", gl.name.replace('.', "_")), 4 => "bad name!é".to_string(), 5 => "dup.1".to_string(), 6 => "dup.2".to_string(), _ => format!("g{}", m.len()) };
                 m.insert(gl.name.clone(), v); } }
             Some(m)
         } else { None };
